@@ -910,6 +910,7 @@ def run_check(pid, tier, seed, replay=None):
         vc.log("VIOLATION property=%s replay=%s no-failing-input-found" % (pid, path))
         return 1
     ctx.impl["asan"] = exe
+    ctx.host_locale = True
     mexe, merr = vbuild.build_model_driver()
     if merr:
         vc.log(merr)
@@ -946,6 +947,11 @@ def run_check(pid, tier, seed, replay=None):
                 stats["distinct"].add(hash("\n".join(body)))
         if len(stats["samples"]) < 3 and order:
             stats["samples"].append({"family": fam, "seed": sd, "case": cases[order[len(order) // 2]]})
+        if res.get("locale_diff"):
+            cidl, la, lb = res["locale_diff"]
+            fails.append((fam, sd, {"case": cidl, "code": 0, "cfg": "-", "op": -1,
+                                    "why": "what is transmitted / shown depends on the host program's global locale: with the classic locale [%s], with digit grouping and a decimal comma [%s]" % (la[:120], lb[:120])},
+                          cases.get(cidl)))
         if res["impl_rc"] != 0:
             crashes.append((fam, sd, res["impl_rc"], res["impl_err"], lines, res))
         if "oracle_err" in res:
